@@ -86,13 +86,15 @@ def files_of(world, seed):
 
 
 _scratch_root = None
+_parent_root = None
 _counter = itertools.count()
 
 
 def scratch_root():
     global _scratch_root
     if _scratch_root is None or not os.path.isdir(_scratch_root):
-        base = os.environ.get("VERIF_SCRATCH")
+        base = _parent_root if _parent_root and os.path.isdir(_parent_root) \
+            else os.environ.get("VERIF_SCRATCH")
         if not base:
             base = "/dev/shm" if os.path.isdir("/dev/shm") else None
         _scratch_root = tempfile.mkdtemp(prefix=f"vmc{os.getpid()}_", dir=base)
@@ -100,8 +102,10 @@ def scratch_root():
 
 
 def reset_scratch_for_child():
-    """Call in a forked worker so that it gets a root of its own."""
-    global _scratch_root
+    """Call in a forked worker so that it gets a root of its own, below the
+    parent's root (which the parent removes when the run ends)."""
+    global _scratch_root, _parent_root
+    _parent_root = _scratch_root
     _scratch_root = None
 
 
